@@ -17,7 +17,7 @@ using namespace vr;
 #define NSUB 3
 #endif
 static RealWorld* W;
-#if defined(MODE_SUBMIT) || defined(MODE_LIMITS) || defined(MODE_VBKTIE) || defined(MODE_TIMELY) || defined(MODE_PAIR)
+#if defined(MODE_SUBMIT) || defined(MODE_LIMITS) || defined(MODE_VBKTIE) || defined(MODE_TIMELY) || defined(MODE_PAIR) || defined(MODE_STALE2)
 // link-level oracles (spec: 'override'): signatures and address derivation answer "valid"; everything else is the real code
 namespace altintegration {
 bool Address::isDerivedFromPublicKey(Slice<const uint8_t>) const { return true; }
@@ -330,6 +330,36 @@ extern "C" __attribute__((noinline)) void h_mempool() {
   checkViews(mp, 200);
   verif_check(mp.getMap<ATV>().empty(), 10);                                                              // nothing of them lingers
   verif_cover(1);
+#elif defined(MODE_STALE2)
+  // the stale path reached NATURALLY: 1..2 ATVs are submitted (stateless + stateful checks) and connect to VBK block 3; then an ALT
+  // block moves the VBK tip far beyond the old-blocks window without carrying them; removeAll / cleanUp / generatePopData must drop
+  // them without touching freed memory (the engine checks every access), and they never reappear (C13)
+  w.vp.mOldBlocksWindow = 1;
+  addAltHeader(w, 2, 1);
+  { PopData none; t.acceptBlock(altHash(2), none); ValidationState s; verif_check(t.setState(altHash(2), s), 1); }
+  mineVbk(w, 1);                                                    // VBK 2
+  auto& A1 = *new ATV(); auto& A2 = *new ATV();
+  uint32_t natv = verif_choice(1, 2);
+  if (natv == 2) makeValidATVPair(w, 2, 2, 1, 2, A1, A2); else A1 = makeValidATV(w, 2, 2, 1);   // in VBK 3
+  mineVbk(w, 3); mineVbk(w, 4); mineVbk(w, 5);                      // VBK 4, 5, 6
+  ValidationState st;
+  verif_check(mp.submit<VbkBlock>(w.vbkById[2], true, st).isValid(), 2);
+  verif_check(mp.submit<ATV>(A1, true, st).isValid(), 3);
+  if (natv == 2) verif_check(mp.submit<ATV>(A2, true, st).isValid(), 4);
+  checkViews(mp, 100);
+  PopData pd; for (int v = 2; v <= 6; v++) pd.context.push_back(w.vbkById[v]);
+  addAltHeader(w, 3, 2);
+  t.acceptBlock(altHash(3), pd);
+  ValidationState s3;
+  verif_check(t.setState(altHash(3), s3), 5);
+  uint32_t how = verif_choice(0, 2);
+  if (how == 0) mp.cleanUp(); else if (how == 1) mp.removeAll(pd); else { PopData g = mp.generatePopData(); addAltHeader(w, 4, 3); t.acceptBlock(altHash(4), g); ValidationState s4; verif_check(t.setState(altHash(4), s4), 6); }   // whatever is still offered is valid as-is
+  checkViews(mp, 200);
+  verif_check(mp.getMap<ATV>().empty(), 7);                         // stale payloads are forgotten
+  verif_check(!mp.isKnown<ATV>(A1.getId(), true), 8);
+  PopData again = mp.generatePopData();
+  verif_check(again.atvs.empty(), 9);                               // and never reappear
+  if (natv == 2) verif_cover(2); else verif_cover(1);
 #elif defined(MODE_STALE)
   w.vp.mOldBlocksWindow = 1;
   mineVbk(w, 1); mineVbk(w, 2); mineVbk(w, 3); mineVbk(w, 4);     // VBK 2..5
